@@ -435,6 +435,52 @@ def _secsi_primaries(ctx, rounds):
             th.join(5.0)
 
 
+def _burst(ctx, role, n):
+    """Many primaries at once: `n` requests (S1F1 W and an uncatalogued S64F1 W mixed, distinct system bytes) arrive in one
+    segment, faster than any callback can answer them. Each one is answered exactly once with its own system bytes."""
+    from lib.gemrig import GemRig
+
+    rng = ctx.rng
+    rig = GemRig(role=role, active=rng.random() < 0.3, t3=5.0)
+    if not rig.establish():
+        ctx.unsure("precondition failed: the handler did not reach COMMUNICATING with a cooperative peer (C07/C20 judge that)")
+        rig.shutdown()
+        return
+    base = 0x51000000 + rng.randrange(1 << 12) * 4096
+    kinds, seg = [], bytearray()
+    for i in range(n):
+        unknown = rng.random() < 0.2
+        kinds.append(unknown)
+        rig.injected_systems.add(base + i)
+        seg += wire.hsms_data(64 if unknown else 1, 1, True, base + i, b"")
+    since = rig.n_frames()
+    ctx.case(("burst", role, n), nontrivial=True)
+    ctx.count("oracle.bursts_of_primaries_in_one_segment")
+    ctx.maximum("largest_burst", n)
+    rig.pipe.feed(bytes(seg))
+
+    def answers():
+        out = {}
+        for _, f in rig.data_frames(since):
+            if base <= f.system < base + n:
+                out.setdefault(f.system, []).append((f.stream, f.function))
+        return out
+    ok = rig.wait(lambda: len(answers()) >= n, timeout=30.0, min_idle=1.0)
+    if not ok:
+        rig.confirm_absent(lambda: len(answers()) >= n, 3.0)
+    got = answers()
+    bad = []
+    for i in range(n):
+        a = got.get(base + i, [])
+        want = [(9, 5)] if kinds[i] else [(1, 2)]
+        if a != want:
+            bad.append((i, a))
+    if bad:
+        ctx.violation(f"burst-of-primaries-not-answered-once-each:{'none-answered' if not got else 'some'}",
+                      {"role": role, "burst": n, "answered": len(got), "first_differences": [(i, a) for i, a in bad[:5]], "state": rig.comm_state})
+    rig.shutdown()
+
+
 def run(ctx):
     from secsgem.secs.functions._all import secs_streams_functions
 
@@ -442,6 +488,8 @@ def run(ctx):
     _secsi_primaries(ctx, 3 if ctx.quick else 60)
     classes = {(c.stream, c.function): c for c in secs_streams_functions}
     cat = _items_catalogue()
+    for i in range(2 if ctx.quick else 12):
+        _burst(ctx, "equipment" if i % 2 == 0 else "host", ctx.rng.choice([130, 140, 200, 300, 520, 600]))
     n = 60 if ctx.quick else 1500
     for i in range(n):
         _sequence(ctx, "equipment" if i % 2 == 0 else "host", classes, cat, ctx.rng.randint(1, 30))
